@@ -20,7 +20,7 @@ RULE = ("for every concrete kit class (85) and a generic module+vector class per
         "at random; every registry plasmid under its registry class (original and 2 rotations); generated and registry assemblies. "
         "Non-trivial = the class accepted the record and the tuple was judged; distinct = distinct (class, sequence).")
 ASSUMPTIONS = [
-    "records are circular and over ACGT (other records are counted as skipped)",
+    "records are circular and over ACGT plus the unknown base N (records with other ambiguity letters are counted as skipped)",
     "which of several valid cut pairs a class picks is not constrained",
 ]
 FLOORS = {"c04_entities_judged": 1500, "c04_placeholders_judged": 150, "c04_flanked_targets": 500, "classes_judged": 60}
@@ -104,7 +104,14 @@ def _variants(rng, cls, other_classes, count, run_max):
             s = s[:i] + rng.choice([site, rc(site)]) + s[i:]
         elif mode == "mutant":
             i = rng.randrange(len(s))
-            s = s[:i] + rng.choice("ACGT") + s[i + 1:]
+            s = s[:i] + rng.choice("ACGTN") + s[i + 1:]
+            if rng.random() < 0.3:
+                # an unknown base inside one of the recognition sites
+                from ..util import occurrences
+                hits = occurrences(s, site, circular=False) + occurrences(s, rc(site), circular=False)
+                if hits:
+                    j = rng.choice(hits) + rng.randrange(len(site))
+                    s = s[:j] + "N" + s[j + 1:]
         yield mode, rot_left(s, rng.randrange(len(s)))
 
 
